@@ -244,9 +244,11 @@ def run(chk, only=None):
                                               r["scenario"]["version"], [(e.get("cmd"), e.get("res")) for e in r["events"] or []])
                                              for r in nontriv]),
         "rule": "72 enumerated single-branch scenarios (every single fault position START/STMT/END/PREPARE/COMMIT/ROLLBACK, both refusal "
-                "kinds, commit/rollback, holder/stranger, server 5.7.30 and 8.0.30) + 134 enumerated reuse/timeout histories (failed first "
+                "kinds, commit/rollback, holder/stranger, server 5.7.30 and 8.0.30) + 54 enumerated pool-retirement / ErrBadConn / db.ExecContext-retry "
+                "histories + 134 enumerated reuse/timeout histories (failed first "
                 "branch of every kind x second branch on the same pooled connection x phase-two order; timeouts) + %d seeded programs "
-                "(1-4 branches on fresh or pool-reused connections, slow statements, interleaved phase two incl. rollback for failed-START "
+                "(1-4 branches on fresh or pool-reused connections or through db.ExecContext with its retry, pool retirements, slow statements, fault error "
+                "kinds generic/ErrBadConn/context, interleaved phase two incl. rollback for failed-START "
                 "branches, 0-3 faults, refusals, three server versions) + %d malformed-stream programs "
                 "(hostile xids, zero/negative branch ids, up to 6 faults, dangling/duplicate phase two) through the real XA proxy; "
                 "%d identifier cases through XaIdBuild/XaIdBuildWithByte; non-trivial = at least one XA START reached the server; "
@@ -260,7 +262,7 @@ def run(chk, only=None):
         "samples": [slim(r) for r in nontriv[50:52]],
     })
     chk.assumptions += [
-        "an injected failure leaves the server state unchanged (no connection loss model inside phase one)",
+        "an injected failure leaves the server state unchanged (driver.ErrBadConn = 'not executed, safe to retry': the session itself stays up)",
         "the coordinator assigns distinct branch ids (hypothesis uniq_bid of the theorems; the generator respects it)",
         "XA END(success) and the XA END(fail) that follows are not both made to fail (hypothesis of C17_legal and C17_failure; "
         "C17_accepted_legal has no such hypothesis)",
